@@ -33,7 +33,7 @@ import warnings
 from dataclasses import dataclass, field
 from typing import Any, Dict, List, Optional, Tuple
 
-META = "a&b<c>\"d'e"
+META = "a&b<c>\"d'e\tf\ng"
 META_XHTML = "<p>a&amp;b&lt;c&gt;\"d'e</p>"
 ID_SUFFIX = ".c11donor"
 DESC_XML = ["<DESC>a&amp;b&lt;c&gt;\"d'e</DESC>", "<DESC><p>a&amp;b&lt;c&gt;\"d'e</p>\n tail &amp; more</DESC>"]
@@ -557,7 +557,84 @@ def matrix(db_name: str, idx: "Index", per_field_instances: int = 3) -> Tuple[Li
                     break
             if not chosen:
                 stats["no-applicable-instance"] = stats.get("no-applicable-instance", 0) + 1
+    for pt in samename_points(db_name, idx):
+        points.append(pt)
+        stats["kind:samename"] = stats.get("kind:samename", 0) + 1
     return points, stats
+
+
+# ---------------------------------------------------------------------------
+# two documents of different category with the same short name
+# ---------------------------------------------------------------------------
+def samename_ops(idx: "Index", node: Node) -> List[List[dict]]:
+    """variants for renaming a document (ODX category) to the short name of a document of another
+    category: a COMPARAM-SPEC or a DIAG-LAYER-CONTAINER gets the name of a COMPARAM-SUBSET.  (Not a
+    subset itself: printProtStack derives the DOCREF of a subset reference from its id.)"""
+    if node.cls not in ("ComparamSpec", "DiagLayerContainer"):
+        return []
+    names = [n.obj.short_name for n in idx.by_cls.get("ComparamSubset", [])]
+    if node.cls == "DiagLayerContainer":
+        names = names + [n.obj.short_name for n in idx.by_cls.get("ComparamSpec", [])]
+    names = [x for x in dict.fromkeys(names) if x != node.obj.short_name]
+    return [[{"op": "rename_doc", "value": x}] for x in names]
+
+
+def samename_points(db_name: str, idx: "Index") -> List[dict]:
+    pts = []
+    for cname in ("ComparamSpec", "DiagLayerContainer"):
+        for n in idx.by_cls.get(cname, []):
+            for vi in range(len(samename_ops(idx, n))):
+                pts.append({"db": db_name, "cls": cname, "field": "short_name", "inst": n.ordinal,
+                            "variant": vi, "kind": "samename"})
+    return pts
+
+
+def _rename_doc(db, obj: Any, new_name: str):
+    """rename the document `obj` (an ODX category) and everything the parser derives from its short
+    name: the OdxDocFragment in the doc_fragments of every id and in the ref_docs of every
+    reference of the database.  Returns an undo function."""
+    from odxtools.odxlink import OdxDocFragment, OdxLinkId, OdxLinkRef
+    frags = getattr(obj, "odx_id").doc_fragments
+    old = frags[0]
+    new = OdxDocFragment(new_name, old.doc_type)
+    old_name = obj.short_name
+    touched: List[Tuple[list, int]] = []
+    seen: set = set()
+
+    def fix_list(lst: list) -> None:
+        if id(lst) in seen:
+            return
+        seen.add(id(lst))
+        for i, fr in enumerate(lst):
+            if fr == old:
+                lst[i] = new
+                touched.append((lst, i))
+
+    def rec(o: Any) -> None:
+        if isinstance(o, OdxLinkId):
+            fix_list(o.doc_fragments)
+        elif isinstance(o, OdxLinkRef):
+            fix_list(o.ref_docs)
+        elif _is_dc(o):
+            if id(o) in seen:
+                return
+            seen.add(id(o))
+            for f in dataclasses.fields(o):
+                rec(getattr(o, f.name))
+        elif isinstance(o, (list, tuple)):
+            for x in o:
+                rec(x)
+
+    for r in roots(db):
+        rec(r)
+    obj.short_name = new_name
+
+    def undo() -> None:
+        for lst, i in touched:
+            lst[i] = old
+        obj.short_name = old_name
+
+    return undo
 
 
 # ---------------------------------------------------------------------------
@@ -658,6 +735,9 @@ def _fixup_donor_context(owner: Any, fname: str, donor: Any) -> None:
     cname = type(owner).__name__
     if cname == "CompuScale" and fname in ("compu_inverse_value", "compu_const"):
         donor.data_type = owner.domain_type if fname == "compu_inverse_value" else owner.range_type
+        if not _is_string_type(donor.data_type) and donor.v is None:
+            # a text constant does not fit a numeric context: <V>7</V> instead of <VT>...</VT>
+            donor.v, donor.vt = "7", None
         donor.__post_init__()
     elif cname == "DataObjectProperty" and fname in ("internal_constr", "physical_constr"):
         t = (owner.diag_coded_type.base_data_type if fname == "internal_constr"
@@ -677,6 +757,15 @@ def apply_op(db, node: Node, fname: str, op: dict, donor_loader) -> None:
     """apply one concrete operation; rolls back and raises Discarded if the result is not a
     database that passes __post_init__/refresh() in strict mode"""
     obj = node.obj
+    if op["op"] == "rename_doc":
+        undo = _rename_doc(db, obj, op["value"])
+        try:
+            _validate(db, node.parents + (obj,))
+        except Exception as e:
+            undo()
+            _validate(db, node.parents + (obj,))
+            raise Discarded(f"{type(e).__name__}: {e}") from None
+        return
     old = getattr(obj, fname)
     set_strict(True)
     try:
@@ -720,7 +809,10 @@ def apply_points(db_name: str, points: List[dict]) -> Prepared:
     for pt in points:
         node = idx.get(pt["cls"], pt["inst"])
         kind, info = field_kind(type(node.obj), pt["field"])
-        vs = variants(node, pt["field"], kind, info, idx)
+        if pt.get("kind") == "samename":
+            kind, vs = "samename", samename_ops(idx, node)
+        else:
+            vs = variants(node, pt["field"], kind, info, idx)
         if pt["variant"] >= len(vs):
             prep.discarded.append({**pt, "why": "variant no longer applicable"})
             continue
